@@ -20,7 +20,9 @@ func init() {
 		Level: "exploration",
 		Rule: "one history per case on linear.Seq/QSeq, alignment.Seq/QSeq (column-stored), multi.Multi of Seq or QSeq rows (flush and ragged, negative offsets) or multi.Set; six complementing alphabets, letters from each pairing's domain " +
 			"(ambiguity codes, n, x, gap, both cases), lengths 0..40; zero-column alignment.Seq/QSeq get a direct strand check; otherwise first RevComp twice and Reverse twice on a fresh copy (direct involution check), then up to 6 operations from {RevComp, Reverse, Clone and continue on either copy, Set, row RevComp, row SetOffset}, " +
-			"the full observable state (letters, qualities, coordinates, strands, column view) compared with a clean-room model after every step and every frozen copy re-observed. Non-trivial = length >= 2 and (ragged rows or qualities or ambiguity letters); distinct = initial state + operations",
+			"the full observable state (letters, qualities, coordinates, strands, column view) compared with a clean-room model after every step and every frozen copy re-observed. " +
+			"The model complements by a written-out IUPAC table (not the library's pairing); column-stored alignments sit at offsets -20..20 (2 in 3); Multi.SetOffset is one of the operations; row copies are compared by name and alphabet (encoding in the field-by-field cases), " +
+			"a clone of a moved multi.Multi must move like a never-cloned twin; containers without rows (empty Multi/Set, n columns x 0 rows) get a direct no-panic/strand check (1 case in 80). Non-trivial = length >= 2 and (ragged rows or qualities or ambiguity letters); distinct = initial state + operations",
 		Batches: func(t string) int {
 			if t == "thorough" {
 				return 16
@@ -32,10 +34,12 @@ func init() {
 		MinDistinct: func(t string) int { return 3000 },
 		Floors: func(string) map[string]int64 {
 			return map[string]int64{"op_revcomp": 3000, "op_reverse": 2000, "op_clone": 2000, "op_set": 2000, "op_row_revcomp": 1000, "op_row_setoffset": 1000,
-				"multi_ragged_revcomp": 300, "involution_checks": 5000, "frozen_copies_reobserved": 3000}
+				"multi_ragged_revcomp": 300, "involution_checks": 5000, "frozen_copies_reobserved": 3000,
+				"op_multi_setoffset": 400, "column_stored_alignments_at_an_offset": 500, "containers_without_rows": 50, "row_clone_name_alphabet_compared": 800}
 		},
 		Assumptions: []string{
-			"column-stored alignments are generated at offset 0 (their Column view ignores the offset)",
+			"column-stored alignments sit at an offset in 2 of 3 cases; their Column view is indexed from 0 whatever the offset, as on the pinned tree",
+			"a multi.Multi's own Strand after RevComp is not judged (its rows carry the strands); where the copy of a column-stored row sits (offset, strand, description) is not judged; Multi.SetOffset(o) moves every row by o minus the recorded offset, or by o minus the old Start()",
 			"coordinates after Reverse of a multi.Multi are not judged (the statement only fixes them for RevComp); the model adopts the observed offsets",
 			"alignment rows' own strands live in sub-annotations and are unaffected by whole-alignment RevComp",
 		},
@@ -110,6 +114,92 @@ func c05ZeroColumns(r *obs.Run) {
 	}
 	r.Count("zero_column_alignments", 1)
 	r.Note(fmt.Sprintf("zerocol/%v/%d/%s", quality, st, al.Letters()), true)
+}
+
+// c05ZeroRows: containers without a single row - a multi.Multi or multi.Set that rows are yet to be added to, a
+// column-stored alignment of n columns by 0 rows. Nothing can be read from them, but the operations must go through and
+// the alignment's strand must follow: RevComp negates it, twice restores it, Len and Rows stay, the clone is its own.
+func c05ZeroRows(r *obs.Run) {
+	rng := r.Rng
+	al := []alphabet.Alphabet{alphabet.DNA, alphabet.RNA, alphabet.DNAgapped, alphabet.RNAgapped, alphabet.DNAredundant, alphabet.RNAredundant}[rng.Intn(6)]
+	shape := rng.Intn(4)
+	ncols := 1 + rng.Intn(4)
+	st := seq.Strand(1 - 2*rng.Intn(2))
+	name := []string{"multi.Multi", "multi.Set", "alignment.Seq", "alignment.QSeq"}[shape]
+	w := map[string]interface{}{"kind": name, "rows": 0, "strand": st}
+	defer func() {
+		if e := recover(); e != nil {
+			r.Violate("panic", fmt.Sprintf("%s without rows: panic: %v", name, e), w)
+		}
+	}()
+	type ops interface {
+		RevComp()
+		Reverse()
+		Rows() int
+	}
+	var x ops
+	clone := func() ops { return nil }
+	strand := func() seq.Strand { return st }
+	length := func() int { return 0 }
+	switch shape {
+	case 0:
+		m, err := multi.NewMulti("m", nil, seq.DefaultConsensus)
+		if err != nil {
+			r.Inconclusive("harness: multi.NewMulti without rows: " + err.Error())
+			return
+		}
+		x, clone = m, func() ops { return m.Clone().(ops) }
+	case 1:
+		x = multi.Set{}
+	case 2:
+		a, err := alignment.NewSeq("a", nil, make([][]alphabet.Letter, ncols), al, seq.DefaultConsensus)
+		if err != nil {
+			r.Inconclusive("harness: alignment.NewSeq without rows: " + err.Error())
+			return
+		}
+		a.Strand = st
+		w["columns"] = ncols
+		x, clone, strand, length = a, func() ops { return a.Clone().(ops) }, func() seq.Strand { return a.Strand }, a.Len
+	default:
+		a, err := alignment.NewQSeq("a", nil, make([][]alphabet.QLetter, ncols), al, alphabet.Sanger, seq.DefaultQConsensus)
+		if err != nil {
+			r.Inconclusive("harness: alignment.NewQSeq without rows: " + err.Error())
+			return
+		}
+		a.Strand = st
+		w["columns"] = ncols
+		x, clone, strand, length = a, func() ops { return a.Clone().(ops) }, func() seq.Strand { return a.Strand }, a.Len
+	}
+	n := length()
+	x.RevComp()
+	if shape >= 2 && strand() != -st || x.Rows() != 0 || length() != n {
+		r.Violate("revcomp", fmt.Sprintf("%s without rows, strand %d: after one RevComp strand %d (want %d), %d rows, length %d (was %d)", name, st, strand(), -st, x.Rows(), length(), n), w)
+		return
+	}
+	x.RevComp()
+	if strand() != st || x.Rows() != 0 || length() != n {
+		r.Violate("revcomp-involution", fmt.Sprintf("%s without rows, strand %d: after two RevComps strand %d, %d rows, length %d (was %d)", name, st, strand(), x.Rows(), length(), n), w)
+		return
+	}
+	if c := clone(); shape != 1 {
+		if c == nil || c.Rows() != 0 {
+			r.Violate("clone-not-independent", fmt.Sprintf("%s without rows: Clone returned %v", name, c), w)
+			return
+		}
+		c.RevComp()
+		if strand() != st {
+			r.Violate("clone-not-independent", fmt.Sprintf("%s without rows: RevComp of the clone changed the original's strand to %d", name, strand()), w)
+			return
+		}
+	}
+	x.Reverse()
+	x.Reverse()
+	if x.Rows() != 0 || length() != n {
+		r.Violate("reverse-involution", fmt.Sprintf("%s without rows: %d rows, length %d (was %d) after two Reverses", name, x.Rows(), length(), n), w)
+		return
+	}
+	r.Count("containers_without_rows", 1)
+	r.Note(fmt.Sprintf("zerorows/%d/%d/%d/%s", shape, ncols, st, al.Letters()), true)
 }
 
 // c05EmptyClones: clones of a zero-length linear sequence whose slice has room to spare (a template that was emptied, or
@@ -229,6 +319,11 @@ func c05CloneCarries(r *obs.Run) {
 		s.SubAnnotations[1].Desc, s.SubAnnotations[1].Offset = "row description", 3
 		x, c = s, s.Clone().(whole)
 		extra = func(v whole) string { return fmt.Sprintf("%+v", v.(*alignment.Seq).SubAnnotations) }
+		// the copy of one row, taken through its handle, is that row's sequence: its name, its alphabet
+		if rc := s.Row(1).Clone().(seq.Sequence); rc.Name() != "r1" || rc.Alphabet() != alphabet.DNA {
+			bad(fmt.Sprintf("Row(1).Clone is named %q over alphabet %q, the row is \"r1\" over %q", rc.Name(), alphaLetters(rc.Alphabet()), alphaLetters(alphabet.DNA)))
+			return
+		}
 	case 3:
 		s, err := alignment.NewQSeq("a", []string{"r0", "r1"}, [][]alphabet.QLetter{{{L: 'a', Q: 9}, {L: 'c', Q: 8}}, {{L: 'g', Q: 30}, {L: 't', Q: 2}}}, alphabet.DNA, enc, seq.DefaultQConsensus)
 		if err != nil {
@@ -243,17 +338,57 @@ func c05CloneCarries(r *obs.Run) {
 			q := v.(*alignment.QSeq)
 			return fmt.Sprintf("%v %v %+v", q.Threshold, q.Encode, q.SubAnnotations)
 		}
-	default:
-		r0 := linear.NewSeq("r0", alphabet.BytesToLetters([]byte("acgt")), alphabet.DNA)
-		r1 := linear.NewSeq("r1", alphabet.BytesToLetters([]byte("ggt")), alphabet.DNA)
-		r1.Desc, r1.Offset = "row description", 2
-		m, err := multi.NewMulti("m", []seq.Sequence{r0, r1}, seq.DefaultConsensus)
-		if err != nil {
-			r.Inconclusive("harness: multi.NewMulti: " + err.Error())
+		// the copy of one row carries its name, alphabet and the encoding its qualities are written in
+		rc := s.Row(0).Clone().(seq.Sequence)
+		sc, scores := rc.(interface{ Encoding() alphabet.Encoding })
+		got := alphabet.Encoding(-1)
+		if scores {
+			got = sc.Encoding()
+		}
+		if rc.Name() != "r0" || rc.Alphabet() != alphabet.DNA || got != enc {
+			bad(fmt.Sprintf("Row(0).Clone is a %T named %q over alphabet %q with encoding %d, the row is \"r0\" over %q with encoding %d", rc, rc.Name(), alphaLetters(rc.Alphabet()), got, alphaLetters(alphabet.DNA), enc))
 			return
 		}
-		m.Desc, m.Conform, m.Loc, m.Encode = "some description", feat.Circular, loc, enc
+		r.Count("row_clone_encoding_compared", 1)
+	default:
+		strand := seq.Strand(1 - 2*rng.Intn(2))
+		mk := func() (*multi.Multi, error) {
+			r0 := linear.NewSeq("r0", alphabet.BytesToLetters([]byte("acgt")), alphabet.DNA)
+			r1 := linear.NewSeq("r1", alphabet.BytesToLetters([]byte("ggt")), alphabet.DNA)
+			r1.Desc, r1.Offset = "row description", 2
+			m, err := multi.NewMulti("m", []seq.Sequence{r0, r1}, seq.DefaultConsensus)
+			if err != nil {
+				return nil, err
+			}
+			m.Desc, m.Conform, m.Loc, m.Encode, m.Strand = "some description", feat.Circular, loc, enc, strand
+			m.SetOffset(off) // the container's own offset: the rows move along with it
+			return m, nil
+		}
+		m, err := mk()
+		twin, err2 := mk()
+		if err != nil || err2 != nil {
+			r.Inconclusive("harness: multi.NewMulti failed")
+			return
+		}
 		x, c = m, m.Clone().(whole)
+		// a copy behaves as the original does: moved to another offset it lands where a never-cloned twin of the
+		// original lands, and the original's rows stay
+		o2 := rng.Intn(41) - 20
+		w["moved_to"] = o2
+		at := func(v *multi.Multi) string { return fmt.Sprint(v.Seq[0].Start(), v.Seq[1].Start()) }
+		was := at(m)
+		c2 := m.Clone().(*multi.Multi)
+		c2.SetOffset(o2)
+		twin.SetOffset(o2)
+		if at(c2) != at(twin) {
+			bad(fmt.Sprintf("after SetOffset(%d) the clone's rows start at %s, those of an identical never-cloned container at %s", o2, at(c2), at(twin)))
+			return
+		}
+		if at(m) != was {
+			bad(fmt.Sprintf("SetOffset(%d) on the clone moved the original's rows from %s to %s", o2, was, at(m)))
+			return
+		}
+		r.Count("multi_clone_moved_like_its_original", 1)
 		extra = func(v whole) string {
 			mm := v.(*multi.Multi)
 			return fmt.Sprintf("%v %s/%d %s/%d", mm.Encode, mm.Seq[0].Description(), mm.Seq[0].Start(), mm.Seq[1].Description(), mm.Seq[1].Start())
@@ -311,6 +446,10 @@ func c05Case(r *obs.Run, i int) {
 		c05EmptyClones(r)
 		return
 	}
+	if i%80 == 31 {
+		c05ZeroRows(r)
+		return
+	}
 	kind := c05Kinds[rng.Intn(len(c05Kinds))]
 	h := newSeqHist(r, kind, 5, 40, true)
 	defer func() {
@@ -321,6 +460,9 @@ func c05Case(r *obs.Run, i int) {
 	if d := snapDiff(h.m.observe(h.x), h.m.snapshot()); d != "" {
 		h.fail("initial-state", "freshly built container differs from the model: "+d)
 		return
+	}
+	if h.m.colStored() && h.m.Off != 0 {
+		r.Count("column_stored_alignments_at_an_offset", 1)
 	}
 	// direct involution checks on a separate copy
 	{
@@ -365,7 +507,9 @@ func c05Case(r *obs.Run, i int) {
 	nops := 1 + rng.Intn(6)
 	for k := 0; k < nops && !h.failed; k++ {
 		before := len(h.Ops)
-		switch rng.Intn(14) {
+		switch rng.Intn(15) {
+		case 14:
+			h.opMultiSetOffset()
 		case 12:
 			h.opRowReverse()
 		case 13:
